@@ -7,8 +7,11 @@ Case format (JSON):
   op = ["set", key_hex, value_hex, syntax]        syntax 0: method, 1: dict syntax
      | ["del", key_hex, syntax]
      | ["sete", key_hex, syntax]                  set(key, b'')
-     | ["batch", [op, ...], abort]                abort: null (commit) | i (caller exception
-                                                  after i operations of the block)
+     | ["batch", [op, ...], abort, exc?]          abort: null (commit) | i (caller exception
+                                                  after i operations of the block); exc:
+                                                  index into ABORT_EXC (Exception subclass,
+                                                  BaseException subclass, KeyboardInterrupt,
+                                                  GeneratorExit), default 0
 Batches are never nested (ScratchDB has no pop(): committing a batch opened on a batch
 trie was never supported by the code, DESIGN.md section 5).
 """
@@ -24,6 +27,22 @@ from vt.ref.mpt import BLANK_ROOT, RefTrie, rlp_enc
 
 class Boom(Exception):
     """The caller's own exception, raised inside a squash_changes block."""
+
+
+class BoomBase(BaseException):
+    """A caller exception that is not an Exception (like KeyboardInterrupt, SystemExit,
+    GeneratorExit, asyncio.CancelledError): leaving the block by it is still 'left by an
+    exception'."""
+
+
+# ways a caller can leave a with-block exceptionally; index = optional 4th field of a batch op
+ABORT_EXC = [Boom, BoomBase, KeyboardInterrupt, GeneratorExit]
+ALL_ABORTS = tuple(ABORT_EXC)
+
+
+def abort_exc(op):
+    """exception class a ["batch", sub, abort, exc?] op is left by"""
+    return ABORT_EXC[op[3] % len(ABORT_EXC)] if len(op) > 3 and op[3] is not None else Boom
 
 
 def nz(d):
@@ -69,7 +88,10 @@ def gen_history(rnd, nops, prune=None, batch_p=0.25, kind=None, abort_p=0.35):
                 _track(o, bkeys)
                 sub.append(o)
             abort = rnd.randint(0, n) if rnd.random() < abort_p else None
-            ops.append(["batch", sub, abort])
+            if abort is not None and rnd.random() < 0.5:
+                ops.append(["batch", sub, abort, rnd.randrange(1, len(ABORT_EXC))])
+            else:
+                ops.append(["batch", sub, abort])
             if abort is None:
                 keys = bkeys
         else:
@@ -161,7 +183,8 @@ class Runner:
             raise Violation(tv.monitor, tv.detail)
 
     def run_batch(self, op):
-        _, sub, abort = op
+        _, sub, abort = op[:3]
+        exc = abort_exc(op)
         bmodel = dict(self.model)
         state = {"final_root": None}
         self.before_batch(op)
@@ -171,21 +194,23 @@ class Runner:
                 self.in_batch = True
                 for i, o in enumerate(sub):
                     if abort == i:
-                        raise Boom()
+                        raise exc()
                     apply_plain(b, bmodel, o)
                     self.after_batch_op(b, bmodel, o)
                 if abort == len(sub):
-                    raise Boom()
+                    raise exc()
                 state["final_root"] = b.root_hash
 
         try:
-            res = cut(block, expect=(Boom,))
+            res = cut(block, expect=ALL_ABORTS)
         finally:
             self.in_batch = False
         if isinstance(res, Raised):
             if abort is None:
                 raise Violation("unexpected-exception", "Boom without abort?")
             self.ctx.count("batch_abort")
+            if exc is not Boom:
+                self.ctx.count("batch_abort_baseexception")
             self.after_batch(op, "abort", None, None)
         else:
             if abort is not None:
